@@ -281,7 +281,7 @@ def check_setting(case, ctx):
 
 def parts(tier):
     return [
-        Part("construct", check_construct, strategy=construct_case(), examples=(600, 10000)),
-        Part("roundtrip", check_roundtrip, strategy=roundtrip_case(), examples=(80, 1500)),
+        Part("construct", check_construct, strategy=construct_case(), examples=(600, 40000)),
+        Part("roundtrip", check_roundtrip, strategy=roundtrip_case(), examples=(80, 5000)),
         Part("display-settings", check_setting, cases=setting_cases, exhaustive=True, shards=10),
     ]
